@@ -216,11 +216,7 @@ Theorem C07_hex_adjacency_geometry :
     then inside surfs k1 (wv w (vertex_of l (i, j))) /\ inside surfs (k1 + 1) (wv w (vertex_of l (i, j)))
     else forall X, on_plane X (pl surfs i) -> on_plane X (pl surfs j) ->
                    ~ (inside surfs k1 X /\ inside surfs (k1 + 1) X).
-Proof.
-  intros c u w l surfs Hl Hc Hs Hsym Ht i j Hij Hg. split.
-  - exact (hex_planes_independent c u w l surfs Hl Hc Hs Hsym Ht i j Hij Hg).
-  - exact (hex_sign_facts c u w l surfs Hl Hc Hs Hsym Ht i j Hij Hg).
-Qed.
+Proof. exact hex_adjacency_geometry. Qed.
 Print Assumptions C07_hex_adjacency_geometry.
 
 (* ---------- C07: the base vectors of every admissible hexagonal prism ---------- *)
@@ -289,9 +285,7 @@ Theorem C07_regular_hexagon_in_family : forall (c e1 e2 u : rvec) (h : R),
   (forall k, wv (hexagon_of c e1 e2 h) (k + 3) = vsub (vscale 2 c) (wv (hexagon_of c e1 e2 h) k)) /\
   (forall k, 0 < det3 (vsub (wv (hexagon_of c e1 e2 h) (k + 1)) (wv (hexagon_of c e1 e2 h) k))
                       (vsub (wv (hexagon_of c e1 e2 h) (k + 2)) (wv (hexagon_of c e1 e2 h) (k + 1))) u).
-Proof.
-  intros c e1 e2 u h Hh Hd. split; intros k; [apply hexagon_of_sym|apply hexagon_of_turn; assumption].
-Qed.
+Proof. exact regular_hexagon_in_family. Qed.
 Print Assumptions C07_regular_hexagon_in_family.
 
 (* non-vacuity: a concrete irregular prism with eight planes, mixed senses and
@@ -301,7 +295,7 @@ Example C07_example_base_vectors :
   (forall i, (i < 6)%nat -> carries ex_u ex_w (pl ex_surfs i) (side_at ex_l i)) /\
   (forall i, (i < 6)%nat -> sd ex_surfs i = planeSide RS ex_c (pl ex_surfs i) /\ sd ex_surfs i <> 0%Z) /\
   hexLatticeBaseVectors RS ex_surfs = Ok [(3, -1, 0); (3, 1, 0); (0, 0, 4)].
-Proof. split; [exact ex_carries|split; [exact ex_sense|exact example_base_vectors]]. Qed.
+Proof. exact example_all. Qed.
 
 (* ---------- develop_lattice: ranges against base vectors, element translation ---------- *)
 
@@ -333,5 +327,5 @@ Theorem C07_lattice_vector : forall (a1 a2 a3 : rvec) (i j k : Z),
   latticeVector RS [a1; a2; a3] [i; j; k] =
   vadd (vadd (vscale (IZR i) a1) (vscale (IZR j) a2)) (vscale (IZR k) a3) /\
   latticeVector RS [a1; a2] [i; j; k] = vadd (vscale (IZR i) a1) (vscale (IZR j) a2).
-Proof. intros. split; [apply lattice_vector_three|apply lattice_vector_two]. Qed.
+Proof. exact lattice_vector. Qed.
 Print Assumptions C07_lattice_vector.
